@@ -34,7 +34,14 @@ class Context:
             self.r.gap(rule_fn.__name__, str(e), fatal=getattr(
                 rule_fn, "fatal_unsupported", False))
         except AnalysisError as e:
-            self.r.gap(rule_fn.__name__, str(e), fatal=True)
+            # a vanished anchor function/class (or a stale table) is an
+            # analysis error; an anchor that exists but no longer has the
+            # idiom the rule recognises is "not judged" (NOTE), so that a
+            # behaviour-preserving refactoring never fails a check
+            msg = str(e)
+            fatal = ("vanished" in msg or "stale" in msg
+                     or "syntax error" in msg)
+            self.r.gap(rule_fn.__name__, msg, fatal=fatal)
         return None
 
 
